@@ -9,5 +9,6 @@ CONSTANTS
   MaxBuilds = 9
   Variant = "chained"
   Fuel = 50
+  Styles <- QuotedOnly
   MaxHist = 5
 CONSTRAINT Emit
